@@ -33,7 +33,7 @@ NoProg == [prog |-> ""]
 
 St0 == [calls |-> 0, relevant |-> 0, ok |-> 0, nviol |-> 0, viol |-> <<>>, nknown |-> 0,
         known |-> [d \in EnabledDeviations |-> 0], knownAt |-> [d \in EnabledDeviations |-> 0],
-        same |-> 0, differs |-> 0, nolow |-> 0, differsAt |-> <<>>, malformed |-> <<>>, progs |-> 0, laws |-> 0, cfg |-> ""]
+        same |-> 0, differs |-> 0, nolow |-> 0, differsAt |-> <<>>, malformed |-> <<>>, progs |-> 0, laws |-> 0, cfg |-> "", ab |-> 0]
 
 Init == l = 1 /\ env = [i \in 1..NReg |-> Z0] /\ hist = <<>> /\ prog = NoProg /\ prev = NoPrev /\ st = St0
 
@@ -55,7 +55,7 @@ Account(s, v, rel, fid) ==
 
 TraceCfg ==
    /\ IsKind("cfg")
-   /\ l' = l + 1 /\ st' = [st EXCEPT !.cfg = Line.id] /\ UNCHANGED <<env, hist, prog, prev>>
+   /\ l' = l + 1 /\ st' = [st EXCEPT !.cfg = Line.id, !.ab = IF "sqrt_runtime_abacus" \in DOMAIN Line THEN Line.sqrt_runtime_abacus ELSE 0] /\ UNCHANGED <<env, hist, prog, prev>>
 
 (* one call of the real library *)
 TraceCall ==
@@ -65,7 +65,7 @@ TraceCall ==
           inprog == "d" \in DOMAIN j
           bound == ~inprog \/ \A i \in DOMAIN j.s : j.s[i] = 0 \/ env[j.s[i]] = e.a[i]     \* data-flow binding
           v == JudgeAll(Prop, prev, e)
-          fid == FidelityAll(e)
+          fid == FidelityAll(st.ab, e)
       IN /\ l' = l + 1
          /\ prev' = e
          /\ IF ~bound
